@@ -34,6 +34,8 @@ type C16Params struct {
 var c16LineFaults = map[string]string{
 	"missing-include":    "##!> include nosuchfile",
 	"unparsable-entry":   "a(b[",
+	"unparsable-prefix":  "##!^ [z-a]",
+	"unparsable-suffix":  "##!$ x{2,1}",
 	"unknown-processor":  "##!> frobnicate\nfoo\n##!<",
 	"unknown-cmdline":    "##!> cmdline vms\nfoo\n##!<",
 	"missing-block-end":  "##!> assemble\nfoo",
@@ -53,7 +55,7 @@ func c16Cells(tier string) []string {
 	lineClasses := sortedKeys(c16LineFaults)
 	for _, cl := range lineClasses {
 		positions := []string{"top", "block", "include"}
-		if cl == "unsupported-flag" || cl == "flags-in-include" {
+		if cl == "unsupported-flag" || cl == "flags-in-include" || cl == "unparsable-prefix" || cl == "unparsable-suffix" {
 			positions = []string{"top"}
 		}
 		if cl == "missing-block-end" || cl == "stray-block-end" {
@@ -442,6 +444,14 @@ func evalC16(sc *Scenario, sim *Sim) ([]Violation, bool, string) {
 			}
 			if strings.Join(a, "\n") != strings.Join(b, "\n") {
 				add("exit0-content-lost", "format exited 0 on a faulty file and changed more than white space", fmt.Sprintf("before: %q\nafter: %q", b, a))
+			}
+			// exit 0 means the requested output was completely written: the faulty file itself must now be formatted,
+			// i.e. formatting it on its own succeeds and changes nothing
+			victimArg := strings.TrimSuffix(strings.TrimPrefix(p.Target, "crs/regex-assembly/"), ".ra")
+			r2 := sb.Run(Step{Argv: []string{"regex", "format", victimArg}, Cwd: "crs"})
+			tgtAgain, _ := sb.Read(p.Target)
+			if r2.Exit != 0 || !bytes.Equal(tgtAgain, tgtAfter) {
+				add("exit0-but-not-formatted", fmt.Sprintf("`%s` exited 0 but the faulty file was not formatted: formatting it alone afterwards exits %d / changes it", strings.Join(p.Argv, " "), r2.Exit), clip(r2.Stderr))
 			}
 		}
 		return viol, true, p.Cell
